@@ -1,5 +1,6 @@
 import Cdecao.Proofs.NodeEng2
 import Cdecao.Proofs.SpecExec
+import Cdecao.Proofs.QualityProofs
 /-! # C08 (score half) — the reported score is the documented score of the reported assignment -/
 namespace Props
 open N2
@@ -25,5 +26,64 @@ theorem C08_score_valid (I : Inst) (R : RoomFns) (hv : validb I = true) (top T :
   intro c hr al hal
   obtain ⟨a, h1, h2, h3⟩ := C01_C08_engine I R (validb_sound I hv).1 top T c hr al hal
   exact ⟨a, h1, (G.hardOKb_iff I a).2 h2, by rw [G.scoreOfL_eq]; exact h3⟩
+
+/-! ### quality half — the figures of caobab/solution_score.rs -/
+
+/-- the "perfect matching" line is an upper bound: the documented score of every assignment is at
+    most `theoretical_max_score` (no hypothesis) -/
+theorem C08_max_ge (I : Inst) (a : Nat → Option Nat) : G.scoreOfL I a ≤ QM.theoreticalMax I :=
+  QM.max_ge I a
+
+/-- score + penalties paid by the participants with choices = `W` per such participant, for every
+    assignment; in particular the unsigned subtraction in `solution_quality` does not underflow -/
+theorem C08_quality_identity (I : Inst) (hpen : QM.PenOK I) (a : Nat → Option Nat) :
+    G.scoreOfL I a + QM.totalPenalty I a = QM.numReal I * G.W :=
+  QM.quality_identity I hpen a
+
+/-- the reported quality lack of an assignment satisfying the hard constraints is the mean, over
+    the participants with choices, of the penalty of the attended choice — `0` for a participant
+    instructing the course they are assigned to; every such participant is assigned to a course
+    they instruct or chose -/
+theorem C08_quality_lack (I : Inst) (hpen : QM.PenOK I) (a : Nat → Option Nat) (h : G.HardOK I a) :
+    QM.quality I (G.scoreOfL I a) = (QM.totalPenalty I a, (QM.realParts I).length) ∧
+    ∀ p ∈ QM.realParts I, ∃ c, a p = some c ∧ c < I.C ∧
+      ((I.instructs p c = true ∧ QM.penaltyPaid I a p = 0) ∨
+       (I.instructs p c = false ∧ ∃ ch ∈ (I.part p).choices, ch.course = c ∧
+          QM.attended I p c = some ch ∧ QM.penaltyPaid I a p = ch.penalty)) :=
+  QM.quality_lack I hpen a h
+
+/-- the combined figure: that sum plus the external penalties, over the participants with choices
+    plus the external attendees plus the external instructors -/
+theorem C08_combined (I : Inst) (hpen : QM.PenOK I) (a : Nat → Option Nat) (h : G.HardOK I a)
+    (extInstr : Nat) (extPen : List Nat) :
+    QM.combined I (G.scoreOfL I a) extInstr extPen =
+      (QM.totalPenalty I a + extPen.sum, (QM.realParts I).length + extPen.length + extInstr) :=
+  QM.combined_lack I hpen a h extInstr extPen
+
+/-- the "perfect matching" quality lack is a lower bound for the lack of every assignment, over the
+    same head count, and its own subtraction does not underflow -/
+theorem C08_quality_max (I : Inst) (a : Nat → Option Nat) :
+    (QM.quality I (QM.theoreticalMax I)).1 ≤ (QM.quality I (G.scoreOfL I a)).1 ∧
+    (QM.quality I (QM.theoreticalMax I)).2 = (QM.quality I (G.scoreOfL I a)).2 ∧
+    QM.theoreticalMax I ≤ QM.numReal I * G.W :=
+  ⟨(QM.quality_max_le I a).1, (QM.quality_max_le I a).2, QM.theoreticalMax_le I⟩
+
+/-- end to end: at every reachable configuration of the parallel search on a valid instance, the
+    figures computed from the stored best score are those of the incumbent assignment: the score
+    is at most the theoretical maximum and the quality lack is the mean penalty paid -/
+theorem C08_quality_engine (I : Inst) (R : RoomFns) (hv : validb I = true) (top T : Nat) :
+    letI := solverOf I R
+    ∀ c : Eng3.Cfg Node (List (Option Nat)),
+      Eng3.Reach rootNode top T c → ∀ al, c.best = some al →
+      ∃ a : Nat → Option Nat, al = (List.range I.P).map a ∧ G.HardOK I a ∧
+        c.bestScore ≤ QM.theoreticalMax I ∧
+        QM.quality I c.bestScore = (QM.totalPenalty I a, (QM.realParts I).length) := by
+  letI := solverOf I R
+  intro c hr al hal
+  obtain ⟨a, h1, h2, h3⟩ := C08_score_valid I R hv top T c hr al hal
+  have hh : G.HardOK I a := (G.hardOKb_iff I a).1 h2
+  refine ⟨a, h1, hh, ?_, ?_⟩
+  · rw [h3]; exact QM.max_ge I a
+  · rw [h3]; exact QM.quality_lack_general I (QM.penOK_of_valid hv) a
 
 end Props
